@@ -79,9 +79,21 @@ func evCheckStep(line string) string {
 		}
 	}
 	e.SetParents(pids)
+	// the epoch's validators come from a builder that the application keeps using afterwards
+	// (preparing the next epoch): the built set must not follow it
+	vb := pos.NewBuilder()
+	for _, v := range vals {
+		vb.Set(v, 1)
+	}
+	epochVals := vb.Build()
+	for _, v := range vals {
+		vb.Set(v, 0)
+	}
+	vb.Set(e.Creator(), 1)
+	vb.Set(e.Creator()+1, 1)
 	checkers := eventcheck.Checkers{
 		Basiccheck:   basiccheck.New(),
-		Epochcheck:   epochcheck.New(epochReader{pos.EqualWeightValidators(vals, 1), idx.Epoch(cur)}),
+		Epochcheck:   epochcheck.New(epochReader{epochVals, idx.Epoch(cur)}),
 		Parentscheck: parentscheck.New(),
 	}
 	err := checkers.Validate(&e.BaseEvent, parents)
